@@ -102,11 +102,222 @@ def display_part(ck):
         shutil.rmtree(scratch, ignore_errors=True)
 
 
+def relayout(rng, text):
+    """The same tokens in another layout: line breaks, tabs, CRLF and comments with non-ASCII text
+    after commas and braces (outside string literals)."""
+    fillers = ["\n", "\n\t", "\r\n    ", " /* é日本😀 */ ", "\n// ünï\n  ", "\t", "  ", "/*ü*/", " /* 日本語 */ ", "\n  /* ñ😀 */ "]
+    out = []
+    in_str = False
+    raw_hashes = None
+    i = 0
+    while i < len(text):
+        ch = text[i]
+        out.append(ch)
+        if ch == '"' and (i == 0 or text[i - 1] != "\\"):
+            in_str = not in_str
+        if not in_str and ch in ",{[(" and rng.random() < 0.5:
+            # never split `..=`-like tokens: only after separators / opening delimiters
+            out.append(rng.choice(fillers))
+        i += 1
+    return "".join(out)
+
+
+def anchor_part(ck):
+    """Anchor selection (compile-time half): the parser model tie on relaid-out invocations, the
+    hypotheses of C04_every_node_anchored on every table, and a direct check on the real parser's
+    node locations: each starts at the start and ends at the end of a token of the invocation."""
+    import random
+    import re
+    import corpus
+    import parsetie
+    import t1
+    import t2
+    rng = random.Random("c04/%d" % ck.seed)
+    base = [t for _, t in corpus.repo_invocations()] + t2.EDGE + t2.gen_texts(rng, 100 if ck.tier == "quick" else 1500)
+    texts = list(base)
+    for t in base:
+        if "r\"" in t or "r#" in t or "'" in t or "//" in t or "/*" in t:
+            continue   # raw strings, char literals, comments: the re-layout below is not lexer-aware for them
+        for _ in range(1 if ck.tier == "quick" else 3):
+            v = relayout(rng, t)
+            if v != t:
+                texts.append(v)
+    impl = ck.rt_batch(["run " + hexs(t) for t in texts], binary="inproc", harness="inproc")
+    bad = parsetie.record(ck, texts, impl, "C04: relaid-out invocations (multi-line, tabs, CRLF, non-ASCII comments); span columns are characters")
+    hyp = parsetie.compare.hyp
+    if hyp:
+        k, flag = hyp[0]
+        ck.report("hypothesis:" + flag, "a hypothesis of C04_every_node_anchored about syn's spans / the token tree does not hold on an input",
+                  dict(invocation=texts[k], flag=flag, count=len(hyp), broken="oracleSpansOk / tokensWf (AsModel/Anchor.lean), evaluated by the driver"), no_input=True)
+    # C04's statement itself, on the implementation's locations: every node of every accepted invocation
+    dumps = ck.rt_batch(["ptoks " + hexs(t) for t in texts], binary="inproc", harness="inproc")
+    acc = [(t, o, d) for t, o, d in zip(texts, impl, dumps) if o.startswith("ok\t") and d != "lexerr"]
+    exts = ck.lean_batch(["extents\t" + d for _, _, d in acc]) if acc else []
+    checked = nodes = multi = walk_failed = 0
+    for (t, o, d), ex in zip(acc, exts):
+        f = o.split("\t")
+        g = ex.split("\t")
+        if g[0] != "ok":
+            walk_failed += 1
+            continue
+        checked += 1
+        if "\n" in t:
+            multi += 1
+        extents = parse_extents(g[1] if len(g) > 1 else "")
+        starts = token_starts(d.split("\t")[0])
+        for loc in f[4].split(" "):
+            if not loc:
+                continue
+            nid, sp = loc.split(":")
+            L = tuple(int(x) for x in sp.split("."))
+            if L == (0, 0, 0, 0):
+                continue
+            nodes += 1
+            why = statement_fails(L, int(nid), extents, starts, in_process=True)
+            if why:
+                ck.report("anchor:" + hexs(t)[:40], "a node's recorded location %s" % why,
+                          dict(invocation="assert_struct!(%s)" % t, node=int(nid), location=sp, own_tokens=extents.get(int(nid))))
+    if walk_failed:
+        ck.notes.append("extent walk did not complete on %d accepted inputs (machinery gap, those inputs are not covered by the statement-level check)" % walk_failed)
+    ck.corr_record("T1 anchors (C04's statement on the real Pattern::location of every node of every accepted invocation: non-empty, inside the node's own tokens, starting on one of them, outside its children's tokens)",
+                   nodes, checked, 0, {"invocations": checked, "multi_line": multi, "nodes": nodes, "extent_walk_failed": walk_failed},
+                   samples=[dict(invocation=texts[-1][:200])],
+                   rule="repository corpus + edge + generated patterns and their re-layouts; own tokens of each node from the AST-directed walk of AsModel/Extents.lean; evaluations = nodes with a location")
+
+
+def parse_extents(text):
+    ext = {}
+    for item in text.split(" "):
+        if not item:
+            continue
+        nid, kind, sp, ch = item.split(":")
+        a, b, c, e = (int(x) for x in sp.split("."))
+        ext[int(nid)] = dict(kind=kind, start=(a, b), end=(c, e), children=[int(x) for x in ch.split(",") if x])
+    return ext
+
+
+def token_starts(ts):
+    import re
+    starts = set()
+    for m in re.finditer(r"\((?:i [0-9a-f-]+|p [0-9a-f]+ [01]|l \w+ [0-9a-f-]+) (\d+)\.(\d+)\.(\d+)\.(\d+)", ts):
+        starts.add((int(m.group(1)), int(m.group(2))))
+    for m in re.finditer(r"\(g \w+ (\d+\.\d+\.\d+\.\d+) (\d+\.\d+\.\d+\.\d+) (\d+\.\d+\.\d+\.\d+)", ts):
+        for sp in m.groups():
+            a, b, c, e = (int(x) for x in sp.split("."))
+            starts.add((a, b))
+    return starts
+
+
+def statement_fails(L, nid, extents, starts, in_process):
+    """C04's statement for one node; returns None or what fails."""
+    s, e = (L[0], L[1]), (L[2], L[3])
+    if not s < e:
+        return "is empty"
+    x = extents.get(nid)
+    if x is None:
+        return None
+    if s < x["start"] or e > x["end"]:
+        return "reaches outside the node's own tokens (a sibling or the parent)"
+    if s not in starts:
+        return "does not begin on a token"
+    if in_process and x["kind"] == "set":
+        return None   # Span::join works in process only: `#(` .. `)`; under rustc the span is `#` (checked on compiled programs)
+    for ch in x["children"]:
+        cx = extents.get(ch)
+        if cx and not (e <= cx["start"] or s >= cx["end"]):
+            return "covers tokens of one of its children"
+    return None
+
+
+def e2e_part(ck):
+    """Both halves end to end under the real compiler: generated (type, value, pattern) triples whose
+    pattern text is relaid out (line breaks, tabs, non-ASCII comments before sub-patterns on the same
+    line); every reported entry must (a) be located where the proved-anchored model location is,
+    (b) mark a non-empty byte range of the source file, and (c) that byte range must be exactly the
+    characters the compiler's (line, column) range names - computed here from the program text."""
+    import t3
+
+    def make(rng, n):
+        cases = t3.gen_cases(rng, n, "nearmiss")
+        for c in cases:
+            pat = c.pattern
+            if 'r"' in pat or "r#" in pat or "'" in pat:
+                continue
+            v = relayout(rng, pat).replace("\r\n", "\n")   # the generated file is LF; CRLF is covered by the T4 parts
+            t3.finish_case(c, c.decls_text, c.type_text, c.value_text, c.value_sexp, v)
+        return cases
+
+    n = 240 if ck.tier == "quick" else 2400
+    cases = t3.run_corpus(ck, "c04-layout", n, positions=make)
+    stats, mism = t3.compare(ck, cases, "c04-layout")
+    loc_bad = 0
+    for m in mism:
+        c = m["case"]
+        if m["kind"] != "entries":
+            continue
+        loc_bad += 1
+        # the reported location differs from the model's: evaluate C04's statement itself on what rustc reported
+        d = ck.rt_batch(["ptoks " + hexs(c.text)], binary="inproc", harness="inproc")[0]
+        ex = ck.lean_batch(["extents\t" + d])[0].split("\t") if d != "lexerr" else ["lexerr"]
+        why = None
+        paired = 0
+        if ex[0] == "ok":
+            extents = parse_extents(ex[1] if len(ex) > 1 else "")
+            starts = token_starts(d.split("\t")[0])
+            for e in c.got[1]:
+                cands = [n for n in getattr(c, "expect_nodes", []) if t3._sq(n[2]) == t3._sq(e[1]) and n[3] == e[2]]
+                if len(cands) != 1 or e[0] == "0.0.0.0":
+                    continue
+                paired += 1
+                L = tuple(int(x) for x in e[0].split("."))
+                why = why or statement_fails(L, cands[0][0], extents, starts, in_process=False)
+        desc = dict(t3.describe(c), paired_entries=paired)
+        if why:
+            ck.report("entry-location:" + hexs(c.text)[:40], "a report entry's location %s" % why, desc)
+        else:
+            desc["broken"] = "correspondence T3/locations: the reported location differs from the model's Pat.location (which C04_every_node_anchored is about) although it still satisfies the property's statement on this input"
+            ck.report("corr:entry-location", "the reported location of an entry no longer matches the model", desc, no_input=True)
+    checked = entries = nonascii = multiline = 0
+    for c in cases:
+        if c.got[0] != "fail":
+            continue
+        checked += 1
+        lines = (" " + c.text).split("\n")
+        if len(lines) > 1:
+            multiline += 1
+        for e in c.got[1]:
+            if len(e) < 6 or e[0] == "0.0.0.0":
+                continue
+            entries += 1
+            loc, marked = e[0], e[5]
+            ls, cs, le, ce = (int(x) for x in loc.split("."))
+            if marked is None:
+                ck.report("no-span:" + hexs(c.text)[:40], "a report entry has no marked range although the source file is readable", t3.describe(c))
+                continue
+            # the characters the (line, column) range names, by characters
+            if ls == le:
+                want = lines[ls - 1][cs:ce]
+            else:
+                want = "\n".join([lines[ls - 1][cs:]] + lines[ls:le - 1] + [lines[le - 1][:ce]])
+            if any(ord(ch) > 127 for ch in lines[ls - 1][:cs]):
+                nonascii += 1
+            if marked == "" or marked != want:
+                ck.report("marked-text:" + hexs(c.text)[:40], "the byte range marked in the report is not the text of the failed sub-pattern's location",
+                          dict(t3.describe(c), location=loc, marked_text=marked, text_at_location=want))
+    ck.corr_record("T3 layouts (programs compiled by rustc with relaid-out patterns: reported location vs the anchored model location; marked bytes vs the characters at that location)",
+                   entries, checked, loc_bad, dict(stats, failing_cases=checked, entries=entries, multi_line_invocations=multiline, entries_after_non_ascii_text_on_their_line=nonascii),
+                   samples=[dict(invocation=c.text[:300]) for c in cases[:2]],
+                   rule="near-miss (value, pattern) pairs from the typed generator, pattern text relaid out; evaluations = report entries checked")
+
+
 def run(ck):
-    ck.prove(["AsModel.Theorems.C04"])
+    ck.prove(["AsModel.Theorems.C04", "AsModel.Theorems.C04Anchor"])
     ck.build_harness("rt")
+    ck.build_harness("inproc")
     runtime_part(ck)
     display_part(ck)
+    anchor_part(ck)
+    e2e_part(ck)
     ck.assumptions += [
         "rustc / proc-macro2 (line, column) convention is modelled by posOf: lines split at \\n, columns count Unicode scalar values (probed under rustc 1.92; BOM and bare CR are outside the model)",
     ]
